@@ -4,3 +4,13 @@ import OdmlModel.Props.C06
 #print axioms C06.constructor_refused_adds_nothing
 #print axioms C06.extend_all_or_nothing
 #print axioms C06.cardinality_refused_keeps
+#print axioms C06.merge_refused_up_front_changes_nothing
+#print axioms C06.link_unresolvable_changes_nothing
+#print axioms C06.link_unresolvable_raises
+#print axioms C06.link_refused_up_front_changes_nothing
+#print axioms C06.merge_all_or_nothing
+#print axioms C06.merge_raises_iff
+#print axioms C06.clone_refused_changes_nothing
+#print axioms C06.link_all_or_nothing
+#print axioms C06.merge_all_or_nothing_anywhere
+#print axioms C06.refused_compound_changes_nothing
